@@ -247,10 +247,13 @@ impl TryFromTerm for f64 {
     fn try_from_term<T: Term>(term: T) -> Result<Self, Self::Error> {
         if let Some(lex) = term.lexical_form() {
             if Term::eq(&term.datatype().unwrap(), xsd::double)
-                || Term::eq(&term.datatype().unwrap(), xsd::float)
                 || Term::eq(&term.datatype().unwrap(), xsd::decimal)
             {
                 lex.parse()
+            } else if Term::eq(&term.datatype().unwrap(), xsd::float) {
+                // the value space of xsd:float is that of f32:
+                // e.g. "0.1"^^xsd:float denotes 0.1f32, which differs from 0.1f64
+                lex.parse::<f32>().map(f64::from)
             } else {
                 "wrong datatype".parse()
             }
